@@ -1622,6 +1622,8 @@ pub fn main(args: &[String]) {
         "rr_hist" => rr_hist(&mut out, &mut rng, cases),
         "orswot_vm" => orswot_vm(&mut out, &mut rng, cases),
         "validate_hist" => validate_hist(&mut out, &mut rng, cases),
+        "persist_hist" => crate::gen_persist::persist_hist(&mut out, &mut rng, cases),
+        "serde_vectors" => crate::gen_persist::vectors(&mut out, &mut rng, cases),
         _ => {
             eprintln!("unknown profile {profile}");
             std::process::exit(2);
